@@ -18,6 +18,7 @@ fn main() {
     let mut seed: u64 = std::env::var("VERIF_SEED").ok().and_then(|s| s.trim().parse().ok()).unwrap_or(1);
     let mut replay: Option<String> = None;
     let mut inner = false;
+    let mut fuzz_only = false;
     let mut i = 2;
     while i < args.len() {
         match args[i].as_str() {
@@ -42,6 +43,7 @@ fn main() {
                 inner = true;
                 replay = Some(args.get(i).cloned().unwrap_or_else(|| usage()));
             }
+            "--fuzz-only" => fuzz_only = true,
             "--worker" => {
                 // subprocess worker protocol: tvh <ID> --worker <family> <args...>
                 let rest: Vec<String> = args[i + 1..].to_vec();
@@ -93,6 +95,17 @@ fn main() {
         std::process::exit(rx.recv().unwrap_or(2));
     }
     let rep = Report::new(&prop, tier, seed);
+    if fuzz_only {
+        // development aid: only the coverage-guided campaigns of this property
+        rep.set_rule("libFuzzer campaigns only (development aid, not a registered command)");
+        for (target, props) in tvh::fuzz::TARGETS {
+            if props.contains(&prop.as_str()) {
+                let (runs, max_len) = tvh::fuzz::budget(target, &prop);
+                tvh::fuzz::campaign(&rep, target, runs, max_len);
+            }
+        }
+        std::process::exit(rep.finish());
+    }
     if !tvh::props::run(&prop, &rep) {
         eprintln!("unknown property {prop}");
         std::process::exit(2);
